@@ -4,5 +4,5 @@ CONSTANTS
   ValueClasses = {@VC@}
 INIT GInit
 NEXT GNext
-INVARIANTS Emit
+INVARIANTS Emit MechOK
 CHECK_DEADLOCK FALSE
